@@ -377,6 +377,7 @@ def run(tr):
                 continue
             if x.busy is not None or x.in_cb is not None:
                 S.bad("C01", f"a{a} took a message out of its mailbox while a handler or callback is running", idx)
+            x.items_after_stop = 0
             if pk == 2 and not x.stream:
                 if x.strat != 2:
                     x.pending_restart = True
@@ -488,12 +489,13 @@ def run(tr):
                 x.busy = None
                 x.items_done = i + 1
                 # C13: an explicit stop or the last handle drop terminates it even if the stream never ends.
-                # The loop picks between mailbox and stream at random, so a stop that is still not
-                # taken after 40 more items (probability 2^-40) is starved.
+                # The loop picks between mailbox and stream at random, so a mailbox from which nothing
+                # is taken during 40 consecutive items (probability 2^-40) is starved. (Items between
+                # dequeues are legitimate: the stop request may be behind a long backlog.)
                 if (x.stop_accepted_ret is not None or x.strong <= 0) and x.dead is None:
                     x.items_after_stop = getattr(x, "items_after_stop", 0) + 1
                     if x.items_after_stop == 40:
-                        S.bad("C13", f"a{a} handled 40 more stream items after a stop request was accepted / its last strong handle was dropped and still runs", idx)
+                        S.bad("C13", f"a{a} handled 40 stream items in a row without taking anything out of its mailbox after a stop request was accepted / its last strong handle was dropped, and still runs", idx)
                         S.bad("C04", f"a{a} keeps handling stream items after an accepted stop request", idx)
                 if st == 1 and not x.crashing:
                     S.bad("C13", f"item {i} on a{a} abandoned", idx)
@@ -537,6 +539,11 @@ def run(tr):
             a = S.h.get(hid, (None, None))[0] if k in (2, 3) else None
             S.reg_ops[o] = {"k": k, "ty": ty, "a": a, "idx": idx}
             S.rpend += 1
+        elif t == 49:
+            # the caller dropped the call's future: the operation is over for the client
+            op = S.ops.get(e[1])
+            if op is not None and op.ret is None:
+                op.ret, op.ret_idx = (R_SKIP,), idx
         elif t == 48:
             # C07: a restart keeps the actor's identity
             if not e[2]:
